@@ -71,7 +71,7 @@ def gateway_determinism(ctx, fresh):
 def run(ctx):
     core.build_harness(ctx, ["gwx"])
     q = ctx.quick()
-    hs = [[h[0]] for h in worlds(ctx, "resolve")] + [[h[0]] for h in worlds(ctx, "listener")] + [[h[0]] for h in worlds(ctx, "conflict")]
+    hs = [[h[0]] for h in worlds(ctx, "resolve")] + [[h[0]] for h in worlds(ctx, "listener")] + [[h[0]] for h in worlds(ctx, "conflict")] + [[h[0]] for h in worlds(ctx, "sections")]
     nfac = len(hs)
     if nfac < 12000:
         raise Undecided("TLC enumerated only %d factor worlds" % nfac)
